@@ -211,6 +211,7 @@ func (x *extState) leaseApply(c *checker, cl *call, e *sim.Ev) {
 }
 
 func (x *extState) finishLease(c *checker) {
+	x.finishMajority(c)
 	endT := c.lastT
 	for _, lc := range x.leaseCuts {
 		if lc.void {
@@ -292,5 +293,94 @@ func (x *extState) finishPV(c *checker) {
 	for _, p := range x.pvDone {
 		c.cov("pv-isolation-completed")
 		c.lat("pv-isolation-ms", (p.t1-p.t0)/1e6)
+	}
+}
+
+// ---------- C13, general form: majority reachability of every leader ----------
+
+// netEvent keeps the reachability matrix and re-evaluates every leader.
+func (x *extState) netEvent(c *checker, e *sim.Ev) {
+	switch e.K {
+	case "x.cut":
+		if e.A == 1 {
+			x.cutM[[2]string{e.S, e.X}] = true
+		} else {
+			delete(x.cutM, [2]string{e.S, e.X})
+		}
+	case "x.heal":
+		x.cutM = map[[2]string]bool{}
+	}
+	x.reevalMajority(c, e)
+}
+
+// leaderHasMajority: can the leader exchange messages with enough running
+// voters of its latest durable configuration?
+func (x *extState) leaderHasMajority(c *checker, l *leaderRec) (bool, int, int) {
+	s := c.server(l.key.s)
+	_, lc := s.disk.latestLogCfg()
+	if lc == "" {
+		if sn := s.disk.newest(); sn != nil {
+			lc = sn.cfg
+		}
+	}
+	voters := ParseCfg(lc).Voters()
+	n := 0
+	for _, v := range voters {
+		if v == l.key.s {
+			n++
+			continue
+		}
+		o := c.srv[v]
+		if o == nil || !o.up {
+			continue
+		}
+		if x.cutM[[2]string{l.key.s, v}] || x.cutM[[2]string{v, l.key.s}] {
+			continue
+		}
+		n++
+	}
+	return n >= len(voters)/2+1, n, len(voters)
+}
+
+func (x *extState) reevalMajority(c *checker, e *sim.Ev) {
+	for _, l := range c.leadLog {
+		if l.ended {
+			continue
+		}
+		ok, n, tot := x.leaderHasMajority(c, l)
+		if ok {
+			if l.lost {
+				// the majority is back: it must not have been gone for longer than the bound
+				x.leaderEnded(c, l, e.T, "majority reachable again")
+			}
+			l.lostAt, l.lost = 0, false
+		} else if !l.lost {
+			l.lost, l.lostAt, l.lostSeq, l.lostN, l.lostTot = true, e.T, e.Seq, n, tot
+		}
+	}
+}
+
+// leaderEnded: called when a leader steps down, crashes or is shut down.
+func (x *extState) leaderEnded(c *checker, l *leaderRec, t int64, how string) {
+	if !l.lost {
+		return
+	}
+	d := t - l.lostAt
+	bound := 2 * c.leaseMs * 1e6
+	c.cov("majority-loss-timed")
+	c.lat("majority-loss-to-end-ms", d/1e6)
+	if d > bound && how == "stepdown" {
+		c.violate("C13", "stepdown-too-late", l.lostSeq, "%s could reach only %d of %d voters from t=%dms on and stepped down %dms later; LeaderLeaseTimeout is %dms (bound 2x)", l.key, l.lostN, l.lostTot, l.lostAt/1e6, d/1e6, c.leaseMs)
+	} else if d > bound {
+		c.violate("C13", "no-stepdown", l.lostSeq, "%s could reach only %d of %d voters from t=%dms on and was still leader %dms later (%s); LeaderLeaseTimeout is %dms", l.key, l.lostN, l.lostTot, l.lostAt/1e6, d/1e6, how, c.leaseMs)
+	}
+	l.lost = false
+}
+
+func (x *extState) finishMajority(c *checker) {
+	for _, l := range c.leadLog {
+		if !l.ended && l.lost {
+			x.leaderEnded(c, l, c.lastT, "end of run")
+		}
 	}
 }
